@@ -32,10 +32,10 @@ ASSUMPTIONS = ["bitwise digests (SHA-1 of array bytes); wall-clock fields (itera
                "documented in-place kernels (UtriangleQsparse 'overwrites input b', Hess_QR_ggivens) are called on copies by their callers and are not in the battery"]
 SHARDS = {"quick": 12, "thorough": 16}
 TIMEOUT = {"quick": 900, "thorough": 3600}
-DECIDING = ["history:call_equals_fresh", "history:config_unchanged", "history:args_unchanged", "immut:args_unchanged", "immut:layout_accepted",
+DECIDING = ["history:call_equals_fresh", "history:config_unchanged", "history:args_unchanged", "immut:args_unchanged", "immut:layout_accepted", "repeat:same_arguments_same_result",
             "seed:same_seed_same_result", "seed:different_seed_different_result", "repeat:deterministic",
             "styles:identical", "styles:all_calls_ran"]
-MUST_REACH = ["history:mixed_sizes", "history:fresh_table_from_fresh_processes", "styles:compared", "layout:readonly", "layout:strided"]
+MUST_REACH = ["size_variant:1", "size_variant:2", "history:mixed_sizes", "history:fresh_table_from_fresh_processes", "styles:compared", "layout:readonly", "layout:strided"]
 
 # ---- (a) histories ---------------------------------------------------------------------------
 
@@ -113,7 +113,8 @@ def cases(tier, seed):
         seqs = list(itertools.product(range(npool), repeat=3))
         out.append({"kind": "history", "cls": "history", "cfg": ci, "npool": npool, "seqs": [list(s) for s in seqs], "seed": seed})
     for lay in gen.LAYOUTS:
-        out.append({"kind": "immut", "cls": "immut:" + lay, "layout": lay, "seed": seed})
+        for size in (None, 1, 2, 3, 5):
+            out.append({"kind": "immut", "cls": "immut:" + lay, "layout": lay, "size": size, "seed": seed})
     out.append({"kind": "seedfun", "cls": "seedfun", "seed": seed})
     out.append({"kind": "styles", "cls": "styles", "seed": seed})
     return out
@@ -205,22 +206,27 @@ def _history(spec, ctx, R):
 # ---- (b) immutability / layouts ----------------------------------------------------------------
 
 def _immut(spec, ctx, R):
-    lay = spec["layout"]
+    lay, size = spec["layout"], spec.get("size")
     ctx.hit("layout:" + lay)
-    base = battery.run_all(R, layout=None)
-    got = battery.run_all(R, layout=lay)
+    ctx.hit(f"size_variant:{size}")
+    base = battery.run_all(R, layout=None, size=size)
+    got = battery.run_all(R, layout=lay, size=size, repeat=True)
+    st = f"size={size}" if size is not None else "size=default"
     for name, rec in got.items():
-        ctx.distinct(name, lay)
-        ctx.check("immut:args_unchanged", not rec["args_changed"], site=name, tags=[lay])
         b = base[name]
-        if b["error"] is None:
-            wr = rec["error"] is not None and ("read-only" in rec["error"] or "readonly" in rec["error"] or "WRITEABLE" in rec["error"])
-            ctx.check("immut:layout_accepted", rec["error"] is None, site=name, tags=[lay] + (["write_attempt_on_readonly_argument"] if wr else []),
-                      detail={"layout": lay, "error": rec["error"]})
-        else:
-            ctx.note(f"battery entry {name} raises on the base layout: {b['error']}")
-    if lay == "C":
-        ctx.sample({"battery_entries": sorted(got)[:12] + ["..."], "n_entries": len(got), "layouts": gen.LAYOUTS})
+        if b["error"] is not None:
+            # the call is not defined for this size variant (e.g. a fixed truncation rank): nothing to judge
+            continue
+        ctx.distinct(name, lay, size)
+        ctx.check("immut:args_unchanged", not rec["args_changed"], site=name, tags=[lay, st])
+        wr = rec["error"] is not None and ("read-only" in rec["error"] or "readonly" in rec["error"] or "WRITEABLE" in rec["error"])
+        ctx.check("immut:layout_accepted", rec["error"] is None, site=name, tags=[lay, st] + (["write_attempt_on_readonly_argument"] if wr else []),
+                  detail={"layout": lay, "size": size, "error": rec["error"]})
+        if rec["error"] is None:
+            ctx.check("repeat:same_arguments_same_result", rec.get("repeat_digest") == rec["digest"], site=name, tags=[lay, st],
+                      detail={"layout": lay, "size": size})
+    if lay == "C" and size is None:
+        ctx.sample({"battery_entries": sorted(got)[:12] + ["..."], "n_entries": len(got), "layouts": gen.LAYOUTS, "size_variants": [None, 1, 2, 3, 5]})
 
 
 # ---- (c) seeds ---------------------------------------------------------------------------------
